@@ -31,7 +31,7 @@ func checkC17(p *Program, tier string) *Result {
 func ruleDeadlineWhoMayCall(p *Program, r *Result) {
 	ro := rolesOK(p, r)
 	n := 0
-	for _, fn := range p.FuncsIn(func(path string) bool { return path == modPath || strings.HasPrefix(path, modPath+"/proxy") }) {
+	for _, fn := range p.UnitsIn(func(path string) bool { return path == modPath || strings.HasPrefix(path, modPath+"/proxy") }) {
 		for _, c := range allCalls(fn) {
 			cc := c.Common()
 			m := ""
